@@ -637,13 +637,21 @@ func main() {
 	seed := flag.Uint64("seed", 1, "seed")
 	tier := flag.String("tier", "quick", "tier")
 	ch := flag.String("child", "", "internal: run one crash probe")
+	stage := flag.String("stage", "readers", "readers | sites | decoders")
 	_ = flag.String("replay", "", "unused: cases are regenerated from the seed")
 	flag.Parse()
 	if *ch != "" {
 		child(*ch)
 		return
 	}
-	if err := run(*out, *seed, *tier); err != nil {
+	var err error
+	switch *stage {
+	case "sites":
+		err = runSites(*out, *seed, *tier)
+	default:
+		err = run(*out, *seed, *tier)
+	}
+	if err != nil {
 		fmt.Fprintln(os.Stderr, err)
 		os.Exit(1)
 	}
